@@ -8,7 +8,11 @@ DilatedConnectionProtocols (framing + a toy Noise) whose transports are in-memor
 The case decides which frames arrive when: one record at a time, or a burst sharing the chunk with
 the Leader's KCM (parked until the Connector's accept turn calls select()); one direction can be
 black-holed (its ACKs never arrive) before the link is dropped; the reconnect goes through the real
-rx_RECONNECT / rx_RECONNECTING inputs and Outbound's re-send of everything un-acked.
+rx_RECONNECT / rx_RECONNECTING inputs and Outbound's re-send of everything un-acked.  A connection can also be
+lost between the KCM chunk and the Follower's accept turn (`linklost`): either the Leader's `reconnect` overtakes
+the turn (the Connector is stopped, the records parked on the candidate connection are gone and must come again
+with the next connection), or the transport dies first (the turn still selects the dead connection and drains
+what was parked; the loss is noticed afterwards).
 """
 import itertools
 import types
@@ -49,14 +53,17 @@ if "pending_opens_unbounded" in open(_EXTRACT).read():
 TRUSTED = ["L4 record delivery between the two Managers is exactly-once and in order (C10); the harness pipe is a FIFO "
            "(a re-sent old record is an explicit `dup` operation)",
            "TCP/hints/Noise: Connector.start() is a no-op, the harness creates the one negotiated link per generation "
-           "(real DilatedConnectionProtocol over an in-memory frame pipe, toy Noise); loss points are frame boundaries",
+           "(real DilatedConnectionProtocol over an in-memory frame pipe, toy Noise); loss points are frame boundaries and "
+           "the gap between the KCM chunk and the Connector's accept turn",
+           "which records are 'new' on arrival is decided by the harness from sequence numbers and, after a loss, from the "
+           "real Inbound watermark (the model's delivery cursor falls back to the first unprocessed record by the same rule)",
            "application protocol callbacks do not call back into their transport re-entrantly",
            "OneShotObserver/EventualQueue fire waiting connect()/listen() calls in FIFO order (the harness takes the order "
            "from the real queue)"]
 RULE = ("two real Managers (leader+follower) built through dilate(expected_subprotocols=unset|[]|[a]|[a,b]); random and "
         "small-scope exhaustive interleavings of connect/listen/write/loseConnection/loseWriteConnection on both sides "
         "and in-order record delivery, <=4 subchannels, names incl. non-ASCII, half-closeable and normal protocols, "
-        "many OPENs for one name (1..129, a second name interleaved) before a late listen(); (re)connections with bursts of the Leader's records sharing the KCM chunk (first connection and reconnects), one direction black-holed before a drop (lost ACKs => re-sent records), activity while the link is down; calls issued right after dilate() (before the peer's PLEASE / role choice) and before the connection exists, by either side, with both sides opening subchannels; adversarial stream adds injected OPEN/DATA/CLOSE with arbitrary "
+        "many OPENs for one name (1..129, a second name interleaved) before a late listen(); (re)connections with bursts of the Leader's records sharing the KCM chunk (first connection and reconnects), one direction black-holed before a drop (lost ACKs => re-sent records), activity while the link is down; connections lost between the KCM chunk and the Follower's accept turn (`linklost`: the Leader's reconnect overtakes the turn => parked records dropped and sent again; or the transport dies first => the turn drains them on the dead connection), also the very first connection, with declared sets and late listeners; calls issued right after dilate() (before the peer's PLEASE / role choice) and before the connection exists, by either side, with both sides opening subchannels; adversarial stream adds injected OPEN/DATA/CLOSE with arbitrary "
         "scid/seq and re-delivered old records; non-trivial = at least one subchannel reached a protocol or was refused; "
         "distinct = distinct canonical output traces")
 
@@ -173,7 +180,9 @@ class Side:
         self.pipe = []          # frames written to the current connection and not yet delivered: [record|None, bytes]
         self.proto = None       # the current real DilatedConnectionProtocol
         self.hold = False       # frames from this side are black-holed for now (not delivered until released)
-        self.rx_new = 0         # how many distinct records of the peer have reached this side (processed or parked)
+        self.rx_new = 0         # how many distinct records of the peer have reached this side (processed, or parked on
+                                # the current connection); falls back to the processed count when a connection is lost
+        self.parked_new = []    # new records parked on the current connection, not yet handed over by select()
         self.wants_drop = False
         self.peer = None
         self.clock = Clock()
@@ -338,6 +347,7 @@ class Run:
         self.sides = {}
         self.waiting = {"A": [], "B": []}
         self.fifo_ok = True
+        self.notes = []          # schedule classes that really happened (distribution tags)
 
     def side_of(self, op):
         if op[0] == "deliver":
@@ -406,10 +416,11 @@ class Run:
                 except Exception as e:   # EventualQueue._turn would log it and go on
                     err = type(e).__name__
                 if side.proto is not None and side.mgr._connection is side.proto and was is not side.proto:
-                    self.emit(f"{side.label} select", ["select", side.label], side, mark, err,
-                              getattr(side, "parked_new", []))
+                    self.emit(f"{side.label} select", ["select", side.label], side, mark, err, side.parked_new)
                     side.parked_new = []
                     continue
+                if err is not None and getattr(f, "__name__", "") == "accept":
+                    self.notes.append("stale-accept-turn:" + err)
                 now = [i for i, (_, h) in enumerate(queue) if h.done and not before[i]]
                 if now:
                     op, h = queue[now[0]]
@@ -431,15 +442,16 @@ class Run:
                     dst.feed([src.pipe.pop(0)])
                     again = True
 
-    def link(self, burst):
+    def link(self, burst, lose=None):
         a, b = self.sides["A"], self.sides["B"]
         if a.proto is not None or b.proto is not None:
             return
         L, F = (a, b) if a.mgr._my_role == LEADER else (b, a)
-        if getattr(self, "linked_once", False):
+        if getattr(self, "linked_once", False) and not getattr(self, "reconnect_sent", False):
             # the Leader noticed the loss and said `reconnect`; the Follower answers `reconnecting`
             F.mailbox("reconnect")
             L.mailbox("reconnecting")
+        self.reconnect_sent = False
         self.linked_once = True
         for s in (L, F):
             s.hold = False
@@ -481,23 +493,54 @@ class Run:
                 line = f"{F.label} parkrx {rec_tokens(r)}"
             self.emit(line, ["park", F.label], F, mark, None, park=idx + 1)
             mark = len(F.effects)
+        if lose == "reconnect":
+            # the Leader's end of the connection dies right after it wrote KCM + burst; it notices, says `reconnect`,
+            # and that message overtakes the Follower's accept turn: CONNECTING --rx_RECONNECT--> stop_connecting,
+            # `reconnecting`, a new Connector.  The candidate connection and the records parked on it are gone.
+            if F.parked_new:
+                self.notes.append(f"loss:parked-unprocessed:{min(len(F.parked_new), 3)}")
+            self.lose_side(L)
+            F.mailbox("reconnect")
+            F.proto.connectionLost()
+            CURRENT[0] = F
+            self.turns(F)            # the stale accept turn of the stopped Connector
+            self.lose_side(F, fire=False)
+            L.mailbox("reconnecting")
+            self.reconnect_sent = True
+            return
+        if lose == "transport":
+            # the TCP connection dies before the Follower's Connector took its accept turn: the turn still selects the
+            # (dead) connection and drains what was parked; the loss is noticed in a later turn
+            self.notes.append("loss:before-accept-turn")
+            F.proto.connectionLost()
+            self.turns(F)
+            self.lose_side(F, fire=False)
+            self.lose_side(L)
+            return
         self.turns(F)
         self.autoflush()
+
+    def lose_side(self, s, fire=True):
+        """side `s` has no connection any more (`X lost`): what was parked on it and not handed over is gone, and the
+        peer's cursor falls back to the first record `s` has not processed (the peer sends those again)"""
+        CURRENT[0] = s
+        mark = len(s.effects)
+        p, s.proto = s.proto, None
+        s.pipe = []
+        s.wants_drop = False
+        if p is not None and fire:
+            p.connectionLost()
+            s.eq.flush_sync()
+        s.rx_new = min(s.rx_new, s.mgr._inbound._highest_inbound_acked + 1)
+        s.parked_new = []
+        self.emit(f"{s.label} lost", ["lost", s.label], s, mark, None)
 
     def drop(self):
         a, b = self.sides["A"], self.sides["B"]
         if a.proto is None and b.proto is None:
             return
         for s in (a, b):
-            CURRENT[0] = s
-            mark = len(s.effects)
-            p, s.proto = s.proto, None
-            s.pipe = []
-            s.wants_drop = False
-            if p is not None:
-                p.connectionLost()
-                s.eq.flush_sync()
-            self.emit(f"{s.label} lost", ["lost", s.label], s, mark, None)
+            self.lose_side(s)
 
     def do(self, op):
         k = op[0]
@@ -505,6 +548,8 @@ class Run:
             return self.drop()
         if k == "link":
             return self.link(op[1])
+        if k == "linklost":
+            return self.link(op[1], lose=op[2])
         if k in ("hold", "release"):
             self.sides[op[1]].hold = (k == "hold")
             if k == "release":
@@ -613,6 +658,9 @@ class Run:
                 else:
                     self.waiting[op[1]].append((op, h))
         # the first connection; `burst` of the Leader's records share the chunk with its KCM
+        first = c.get("first")
+        if first:
+            self.link(first[1], lose=first[2])
         self.link(c.get("burst", 0))
         for op in c["ops"]:
             self.do(op)
@@ -692,6 +740,9 @@ def oracle(run):
             viol.append(("open-exactly-once", f"{lab}: OPEN for subchannel {scids}, in use, built another protocol: {effs}"))
         if op[0] == "deliver" and not arr and any(not e.startswith(("ack ", "log ")) for e in effs):
             viol.append(("resent-record-accepted", f"{lab}: a record it had already handled was re-sent and caused {effs}"))
+        if op[0] == "select" and not arr and any(not e.startswith(("ack ", "log ")) for e in effs):
+            viol.append(("resent-record-accepted", f"{lab}: select() drained only records it had already handled (re-sent after "
+                                                   f"a loss) and that caused {effs}"))
         live[lab] = {int(t.split(":")[0]) for t in summ[summ.index("open=[") + 6:summ.index("]")].split()}
 
     if not honest:
@@ -787,6 +838,16 @@ def oracle(run):
             closes = [e for e in evs if e[0] in ("lost", "rlost")]
             if closes and ((p.kind == "full") != (closes[0][0] == "lost")):
                 viol.append(("connectionLost-once", f"{lab} protocol {p.pid} kind {p.kind} was told {closes[0][0]}"))
+            # data_before_close, from the WRITER's side: once this protocol has its close signal it has read everything the
+            # peer ever wrote on the subchannel (what the peer's application handed to transport.write before its close),
+            # whatever happened to the records on the way (parked, dropped with a connection, sent again)
+            if closes:
+                wrote = [e.split()[3] if len(e.split()) > 3 else "" for e in other.effects
+                         if e.startswith("tx-data ") and int(e.split()[2]) == scid]
+                read = [g[1] for g in got[:got.index(("close", None))] if g[0] == "data"]
+                if read != wrote:
+                    viol.append(("data-before-close", f"{lab} protocol {p.pid} (subchannel {scid}) got its close signal after "
+                                                      f"reading {read}, but the peer had written {wrote} before closing"))
         # a successful half-close tells the protocol exactly once, at once
         told = set()
         for op, slab, effs, err, summ, _arr in run.steps:
@@ -895,6 +956,37 @@ CORPUS = [
     mkcase([("listen", "B", "a", "full"), ("connect", "A", "a", "full"), ("drop",), ("write", "A", 0, "01"), ("link", 1),
             ("drop",), ("write", "A", 0, "02"), ("lose", "A", 0), ("link", 4), ("deliver", "A"), ("deliver", "B"), ("deliver", "A")],
            sa="a0", sb="b1"),
+    # --- a connection lost between the KCM chunk and the Follower's accept turn (Props: exDropParkedOps).
+    # DATA+CLOSE are parked on the candidate connection; the Leader's `reconnect` overtakes the accept turn: the
+    # Connector is stopped, the parked records are gone; they come again with the next KCM and are read once, in order
+    mkcase([("listen", "B", "a", "full"), ("connect", "A", "a", "full"), ("deliver", "A"), ("write", "A", 0, "07"), ("lose", "A", 0),
+            ("hold", "A"), ("drop",), ("linklost", 2, "reconnect"), ("link", 2), ("deliver", "B"), ("deliver", "A"), ("deliver", "B")]),
+    # the same with the whole life OPEN+DATA+CLOSE parked and lost twice, then arriving one by one
+    mkcase([("listen", "B", "a", "full"), ("drop",), ("connect", "A", "a", "full"), ("write", "A", 0, "07"), ("lose", "A", 0),
+            ("linklost", 3, "reconnect"), ("linklost", 2, "reconnect"), ("link", 0), ("deliver", "A"), ("deliver", "A"),
+            ("deliver", "A"), ("deliver", "B"), ("deliver", "A")]),
+    # the transport dies before the accept turn: the turn still drains what was parked; the re-sent copies are old
+    mkcase([("listen", "B", "a", "full"), ("connect", "A", "a", "full"), ("deliver", "A"), ("write", "A", 0, "07"), ("lose", "A", 0),
+            ("hold", "A"), ("drop",), ("linklost", 2, "transport"), ("link", 2), ("deliver", "B"), ("deliver", "A"), ("deliver", "B")]),
+    # the very first connection is lost with a parked burst (calls made before dilation), follower side opens too
+    dict(mkcase([("deliver", "A"), ("deliver", "A"), ("deliver", "B"), ("write", "A", 0, "01"), ("deliver", "A")],
+                early=[("connect", "A", "a", "full"), ("connect", "A", "a", "half")],
+                pre=[("listen", "B", "a", "full"), ("connect", "B", "x y", "full")], burst=1), first=["linklost", 2, "reconnect"]),
+    # --- declared sets in honest two-sided runs (Props: exDeclOps, exDeclBurstOps)
+    # a refused OPEN next to an accepted one that reads data and is closed; then a loss and a re-sent record
+    mkcase([("connect", "A", "b", "full"), ("connect", "A", "a", "full"), ("write", "A", 0, "09"), ("write", "A", 1, "07"),
+            ("lose", "A", 1), ("deliver", "A"), ("deliver", "A"), ("deliver", "A"), ("deliver", "A"), ("deliver", "A"),
+            ("deliver", "B"), ("hold", "B"), ("drop",), ("link", 0), ("deliver", "A"), ("deliver", "B"), ("deliver", "A")],
+           pre=[("listen", "B", "a", "full")], expB=["a"]),
+    # declared set + late listener + the burst OPEN a / DATA / CLOSE / OPEN b (refused) parked with the KCM
+    mkcase([("drop",), ("connect", "A", "a", "full"), ("write", "A", 0, "07"), ("lose", "A", 0), ("connect", "A", "b", "full"),
+            ("link", 4), ("listen", "B", "a", "full"), ("deliver", "B"), ("deliver", "B"), ("deliver", "A"), ("write", "A", 1, "08")],
+           expB=["a"]),
+    # the same burst lost before the accept turn, then parked again
+    mkcase([("drop",), ("connect", "A", "a", "half"), ("write", "A", 0, "07"), ("losew", "A", 0), ("connect", "A", "b", "full"),
+            ("linklost", 4, "reconnect"), ("link", 3), ("listen", "B", "a", "half"), ("deliver", "A"), ("deliver", "B"),
+            ("deliver", "B"), ("deliver", "A"), ("write", "B", 0, "0a"), ("losew", "B", 0), ("deliver", "B"), ("deliver", "B")],
+           expB=["a", "c"], expA=[]),
     # a peer that opens one of OUR ids: the next local connect() raises AssertionError (open_exactly_once, case 3)
     mkcase([("rx", "A", "open", 0, 1, "a"), ("connect", "A", "b", "full"), ("connect", "A", "b", "full"),
             ("listen", "A", "a", "full"), ("write", "A", 0, "01")]),
@@ -965,6 +1057,12 @@ def rand_case(rng, adversarial=False, nops=None):
             k = rng.choice([0, 1, 2, 3])
             c["ops"] += tail[:k]
             tail = tail[k:]
+            for _ in range(rng.choice([0, 0, 0, 1, 1, 2])):
+                # this connection is lost between the KCM chunk and the Follower's accept turn
+                c["ops"].append(["linklost", rng.choice([0, 1, 2, 3, 5]), rng.choice(["reconnect", "reconnect", "transport"])])
+                k = rng.choice([0, 0, 1, 2])
+                c["ops"] += tail[:k]
+                tail = tail[k:]
             c["ops"].append(["link", rng.choice([0, 1, 2, 3, 5])])
             k = rng.choice([1, 3, 6])
             c["ops"] += tail[:k]
@@ -972,6 +1070,8 @@ def rand_case(rng, adversarial=False, nops=None):
         c["ops"] += tail
     if rng.random() < 0.3:
         c["burst"] = rng.choice([1, 2, 3])
+        if not adversarial and rng.random() < 0.3:
+            c["first"] = ["linklost", rng.choice([1, 2, 3]), rng.choice(["reconnect", "transport"])]
     if not adversarial:
         # let everything in flight arrive (the close handshakes complete)
         c["ops"] += [["deliver", "A"], ["deliver", "B"]] * rng.choice([0, 3, 8])
@@ -1020,18 +1120,43 @@ def reconnects(full):
             for ndel in range(0, 4):
                 for off in offline:
                     for burst in ((0, 1, 2, 3, 4) if full else (0, 2, 3)):
-                        ops = [("listen", "B", "a", "full"), ("connect", "A", "a", "full"), ("write", "A", 0, "0a")]
-                        if hold:
-                            ops.append(("hold", hold))
-                        ops += [("deliver", "A")] * ndel + [("lose", "A", 0)] * (ndel == 3) + [("deliver", "A")] * (ndel == 3)
-                        ops += [("drop",)] + off + [("link", burst)] + [("deliver", "A"), ("deliver", "B")] * 5
-                        yield mkcase(ops, sa=sa, sb=sb)
+                        for lost in (None, "reconnect", "transport"):
+                            ops = [("listen", "B", "a", "full"), ("connect", "A", "a", "full"), ("write", "A", 0, "0a")]
+                            if hold:
+                                ops.append(("hold", hold))
+                            ops += [("deliver", "A")] * ndel + [("lose", "A", 0)] * (ndel == 3) + [("deliver", "A")] * (ndel == 3)
+                            ops += [("drop",)] + off
+                            if lost:
+                                # the first reconnection is lost before the accept turn, with `burst` records parked
+                                ops += [("linklost", burst, lost), ("write", "A", 0, "0e")]
+                            ops += [("link", burst)] + [("deliver", "A"), ("deliver", "B")] * 5
+                            yield mkcase(ops, sa=sa, sb=sb)
     for burst in range(0, 4):
         for ea in range(0, 4):
             yield mkcase([("deliver", "A"), ("deliver", "A"), ("deliver", "A")], burst=burst, pre=[("listen", "B", "a", "full")],
                          early=[("connect", "A", "a", "full")] * ea)
             yield mkcase([("deliver", "B"), ("deliver", "B"), ("deliver", "B")], burst=burst, pre=[("listen", "B", "a", "full")],
                          early=[("connect", "A", "a", "full")] * ea, sa="a0", sb="b1")
+
+
+def declared_bursts(full):
+    """declared sets x listener timing x a burst OPEN a / DATA / CLOSE / OPEN b / DATA parked with the KCM x loss of that
+    connection before the accept turn: a refused OPEN next to an accepted one, across losses and re-sends"""
+    for expB in ([], ["a"], ["a", "b"], ["b"], None):
+        for when in ("pre", "late", "never"):
+            for burst in ((0, 1, 2, 3, 4, 5, 6) if full else (0, 3, 5)):
+                for lost in (None, "reconnect", "transport"):
+                    for kind in (("full", "half") if full else ("full",)):
+                        ops = [("drop",), ("connect", "A", "a", kind), ("write", "A", 0, "07"),
+                               ("losew" if kind == "half" else "lose", "A", 0), ("connect", "A", "b", "full"), ("write", "A", 1, "08")]
+                        if lost:
+                            ops.append(("linklost", burst, lost))
+                        ops.append(("link", burst))
+                        if when == "late":
+                            ops.append(("listen", "B", "a", kind))
+                        ops += [("deliver", "A"), ("deliver", "B")] * 6
+                        ops += [("write", "A", 1, "09"), ("lose", "A", 1), ("deliver", "A"), ("deliver", "A"), ("deliver", "B")]
+                        yield mkcase(ops, expB=expB, pre=[("listen", "B", "a", kind)] if when == "pre" else [])
 
 
 def many_opens(n, second=0, leader_opens=True, extra=()):
@@ -1086,10 +1211,12 @@ def cases(rng, tier):
         out += list(exhaustive(5))
         out += list(phases(3))
         out += list(reconnects(True))
+        out += list(declared_bursts(True))
     else:
         out += list(exhaustive(2))
         out += list(phases(1))
         out += list(reconnects(False))
+        out += list(declared_bursts(False))
     return out
 
 
@@ -1104,6 +1231,9 @@ def run_case(case):
     viol, tags = oracle(run)
     tags = list(tags)
     tags.append("exp:" + exp_token(case["expA"]).replace(",", "+") + "/" + exp_token(case["expB"]).replace(",", "+"))
+    for op in case["ops"] + ([case["first"]] if case.get("first") else []):
+        if op[0] == "linklost":
+            tags.append("op:linklost:" + op[2])
     for op, lab, effs, err, summ, _arr in run.steps:
         tags.append("op:" + op[0])
         if err:
@@ -1111,6 +1241,7 @@ def run_case(case):
         for e in effs:
             if e.split()[0] in ("lost", "rlost", "wlost", "log"):
                 tags.append("ev:" + " ".join(e.split()[:1] + (e.split()[1:2] if e.startswith("log") else [])))
+    tags += ["sched:" + n for n in run.notes]
     nontrivial = any(s.protos for s in run.sides.values()) or "open:refused" in tags
     return Result(run.lines, run.expect, viol, sorted(set(tags)), nontrivial)
 
@@ -1132,6 +1263,10 @@ def shrink(case):
     for i in range(len(ops) - 1, -1, -1):
         c = dict(case)
         c["ops"] = ops[:i] + ops[i + 1:]
+        yield c
+    if case.get("first"):
+        c = dict(case)
+        c["first"] = None
         yield c
     early = case.get("early", [])
     for i in range(len(early)):
